@@ -7,10 +7,16 @@
    gdecode = the reading part of AttackGraph._from_dict, with the types the loader gives every value.
    Floats: the only fact used about str / float is fparse (fstr d) = Some d for the defense values present
    (a hypothesis of the theorem, instantiated by a table in the correspondence run).
-   PARTIAL: that the loader then rebuilds through add_node / add_attacker a graph whose content is the decoded one
-   is covered by the C09 / C11 theorems (explicit ids honoured, links mirrored) and by the correspondence run on
-   real files, not by a theorem of its own. *)
-From MT Require Import Prelude Codec ModelIO GraphIO.
+   The rebuild (GraphLoad.gload) is a history of the attack-graph machine of C09: nodes created and added under their
+   stored ids, child links re-established, attackers added under their stored ids with reached steps and entry points.
+   C10_rebuild: every loadable content (distinct ids and full names, known duplicate-free children / parents that are
+   converse to each other, distinct attacker ids, known duplicate-free reached steps and entry points) is rebuilt into
+   a coherent graph (WF) whose nodes carry the stored attributes and children, the stored parents up to order, and
+   whose attackers are the stored ones; without the model the nodes have no asset. C10_save_load composes it with the
+   document codec. PARTIAL: the order of parent lists and of compromised_by is not modelled (the property speaks of the
+   same edges and attackers); that the content of every graph reachable through the API is loadable is checked on every
+   graph of the correspondence run (counted), not proved; the JSON / YAML text layer is trusted. *)
+From MT Require Import Prelude Graph GraphOps GraphInv Codec ModelIO GraphIO GraphLoad GraphLoadThm.
 
 Theorem C10_roundtrip_partial : forall fstr fparse name_of_id,
   (forall c n d, In n (gc_nodes c) -> gn_def n = Some d -> fparse (fstr d) = Some d) ->
@@ -31,6 +37,26 @@ Theorem C10_key_roundtrip : forall z, Z_of_string (string_of_Z z) = Some z.
 Proof. exact Z_of_string_of_Z. Qed.
 Print Assumptions C10_key_roundtrip.
 
+(* the rebuild reproduces every loadable content in a coherent graph *)
+Theorem C10_rebuild : forall wm c, GLoadable wm c ->
+  exists s, gload wm c = Some s /\ WF s /\
+            Forall2 gn_equiv (gc_nodes (gcontent_of s)) (gc_nodes (expected wm c)) /\ gc_atts (gcontent_of s) = gc_atts c.
+Proof. exact gload_spec. Qed.
+Print Assumptions C10_rebuild.
+
+(* the premise is decidable *)
+Theorem C10_loadable_decidable : forall wm c, gloadableb wm c = true -> GLoadable wm c.
+Proof. exact gloadableb_ok. Qed.
+Print Assumptions C10_loadable_decidable.
+
+(* save, then load: codec and rebuild composed *)
+Theorem C10_save_load : forall fstr fparse name_of_id wm c,
+  (forall c0 n d, In n (gc_nodes c0) -> gn_def n = Some d -> fparse (fstr d) = Some d) -> GLoadable wm c ->
+  exists c' s, gdecode fparse (gencode fstr name_of_id c) = Some c' /\ gload wm c' = Some s /\ WF s /\
+               Forall2 gn_equiv (gc_nodes (gcontent_of s)) (gc_nodes (expected wm c)) /\ gc_atts (gcontent_of s) = gc_atts c.
+Proof. exact save_then_gload. Qed.
+Print Assumptions C10_save_load.
+
 Definition exG : gcontent := mkGC
   [ mkGN 0%Z "or" "access" (Some "h") JNull [2%Z] [] ["eve"; "eve"] None None false true (Some "T1") ["x"; "y"] [("k", JInt 1%Z)];
     mkGN 2%Z "defense" "patched" (Some "h") JNull [] [0%Z] [] (Some 512%Z) None true false None [] [];
@@ -43,3 +69,9 @@ Proof.
   split; [|vm_compute; reflexivity].
   intros c n d _ _ H. cbn in H. repeat (destruct H as [H|H]; [subst d; reflexivity|]). destruct H.
 Qed.
+Example C10_rebuild_nonvacuous :
+  gloadableb true exG = true /\ gloadableb false exG = true /\
+  option_map (fun s => (map gn_children (gc_nodes (gcontent_of s)), map gn_parents (gc_nodes (gcontent_of s)),
+                        map gn_comp (gc_nodes (gcontent_of s)), gc_atts (gcontent_of s))) (gload true exG)
+  = Some ([[2%Z]; []; []], [[]; [0%Z]; []], [["eve"]; ["eve"]; []], gc_atts exG).
+Proof. vm_compute. repeat split. Qed.
